@@ -64,3 +64,23 @@ theorem l2_triangle_of_coordinatewise {n : ℕ} (a b c : Fin n → ℝ) (h : ∀
     _ ≤ ‖B + C‖ := hA
     _ ≤ ‖B‖ + ‖C‖ := hBC
     _ = Real.sqrt (∑ d, b d ^ 2) + Real.sqrt (∑ d, c d ^ 2) := by rw [hn b, hn c]
+
+/-- Gram layer (C12): averaging the kernel over one index with weights w is the inner product with the weighted mean vector. -/
+theorem weighted_mean_inner {n : ℕ} (w : Fin n → ℝ) (φ : Fin n → E) (x : E) :
+    ∑ i, w i * inner ℝ (φ i) x = inner ℝ (∑ i, w i • φ i) x := by
+  rw [sum_inner]
+  apply Finset.sum_congr rfl
+  intro i _
+  rw [real_inner_smul_left]
+
+/-- Gram layer (C12): the Gram matrix of centred features, expanded (bilinearity). -/
+theorem centred_gram (a b μ : E) :
+    inner ℝ (a - μ) (b - μ) = inner ℝ a b - inner ℝ a μ - inner ℝ μ b + inner ℝ μ μ := by
+  rw [inner_sub_left, inner_sub_right, inner_sub_right]
+  ring
+
+/-- finite-sum facts used as instances by the metric laws of C15 -/
+theorem sumd_nonneg {n : ℕ} (f : Fin n → ℝ) (h : ∀ d, 0 ≤ f d) : 0 ≤ ∑ d, f d := Finset.sum_nonneg (fun d _ => h d)
+theorem sumd_mono {n : ℕ} (f g : Fin n → ℝ) (h : ∀ d, f d ≤ g d) : ∑ d, f d ≤ ∑ d, g d := Finset.sum_le_sum (fun d _ => h d)
+theorem sumd_congr {n : ℕ} (f g : Fin n → ℝ) (h : ∀ d, f d = g d) : ∑ d, f d = ∑ d, g d := Finset.sum_congr rfl (fun d _ => h d)
+theorem sumd_zero {n : ℕ} (f : Fin n → ℝ) (h : ∀ d, f d = 0) : ∑ d, f d = 0 := Finset.sum_eq_zero (fun d _ => h d)
